@@ -137,8 +137,43 @@ def sensitivity(only=None, tier="quick"):
     return 0 if missed == 0 else 1
 
 
+REACH = {
+    "C17": ["draw_inside_callback", "raise_at_first", "raise_at_last", "raise_at_middle", "reenter_same_key",
+            "reenter_other_key", "repeat_with_different_global_state", "reseed_inside_callback", "setstate_inside_callback",
+            "hutch_hit_max_iters", "hutch_stopped_by_tol", "shim_vmap_used", "alloc_fail_inside_rng_section",
+            "crash_points_enumerated", "user_fn_callbacks", "alg_objects_made", "twins", "panel_calls"],
+    "C18": ["class_first_arrayless_then_arrays", "class_first_arrays_then_arrayless", "distinct_concrete_classes_created",
+            "raise_at_first", "raise_at_middle", "repeat_after_fault", "reenter_same_key", "annotate_then_check_original",
+            "to_dtype_move", "flatten_leaf_substituted", "optional_module_imported", "default_Auto_paths",
+            "alloc_fail_in_constructor", "crash_points_enumerated", "alg_objects_made", "user_fn_callbacks",
+            "sweep_histories", "observer_snapshots", "clock_negative_jump"],
+}
+FAULTS = ["raise", "alloc_fail", "nonfinite", "clock", "pbar_fail"]
+
+
+def reach():
+    """Every reach probe and every fault kind must have fired in the evidence of the last run of each check."""
+    bad = 0
+    for prop in CLAIMED:
+        path = os.path.join(os.environ.get("VERIF_EVIDENCE_DIR") or os.path.join(VERIF, "evidence"), prop + ".json")
+        try:
+            ev = json.load(open(path))
+        except Exception as e:  # noqa
+            print("reach %s: no evidence (%r)" % (prop, e))
+            bad += 1
+            continue
+        pr = ev["coverage"].get("reach_probes", {})
+        fk = ev["coverage"].get("fault_kinds_fired", {})
+        zero = [p for p in REACH[prop] if not pr.get(p)] + ["fault:" + f for f in FAULTS if not fk.get(f)]
+        print("reach %s (tier %s): %d probes, stuck at zero: %s" % (prop, ev.get("tier"), len(REACH[prop]) + len(FAULTS), zero or "none"))
+        bad += len(zero)
+    return 0 if bad == 0 else 1
+
+
 def main(arg, tier, seed):
     arg = arg or "smoke"
+    if arg == "reach":
+        return reach()
     if arg == "smoke":
         return determinism(40, 4, 4, 0)
     if arg == "determinism":
